@@ -829,4 +829,37 @@ end
 example : cmpV (.struct [(['a'], .int 1), (['o'], .none_)]) (.struct [(['a'], .int 1), (['o'], .some_ (.str ['x']))]) = .lt
   ∧ cmpV (.struct [(['a'], .int 1), (['o'], .some_ (.str ['x']))]) (.struct [(['a'], .int 2), (['o'], .none_)]) = .lt := by decide
 
+/-! ### Corollaries: trichotomy, `>` transitive, hashing agrees with ordering -/
+
+/-- `>` is transitive too (by `cmpV_swap`). -/
+theorem cmpV_gt_trans (a b c : Val) (t : Ty) (ha : hasTy a t = true) (hb : hasTy b t = true) (hc : hasTy c t = true)
+    (ho : ordTy t = true) (h1 : cmpV a b = .gt) (h2 : cmpV b c = .gt) : cmpV a c = .gt :=
+  (lt_iff_gt c a).mp (cmpV_lt_trans c b a t hc hb ha ho ((lt_iff_gt c b).mpr h2) ((lt_iff_gt b a).mpr h1))
+
+/-- Trichotomy: exactly one of `a < b`, `a == b`, `a > b` holds for values of one orderable type. -/
+theorem cmpV_trichotomy (a b : Val) (t : Ty) (ha : hasTy a t = true) (hb : hasTy b t = true) (ho : ordTy t = true) :
+    (cmpV a b = .lt ∧ a ≠ b) ∨ (cmpV a b = .eq ∧ a = b) ∨ (cmpV a b = .gt ∧ a ≠ b) := by
+  cases h : cmpV a b with
+  | lt => left; refine ⟨rfl, ?_⟩; intro e; subst e; rw [cmpV_refl_of_eq] at h; cases h
+  | eq => right; left; exact ⟨rfl, cmpV_eq_imp_eq a b t ha hb ho h⟩
+  | gt => right; right; refine ⟨rfl, ?_⟩; intro e; subst e; rw [cmpV_refl_of_eq] at h; cases h
+
+/-- Values that compare `Equal` hash equally (ordered and hashed containers agree on which keys are the same). -/
+theorem ord_eq_hash_eq (a b : Val) (t : Ty) (ha : hasTy a t = true) (hb : hasTy b t = true) (ho : ordTy t = true)
+    (h : cmpV a b = .eq) : hashInput a = hashInput b := by
+  rw [cmpV_eq_imp_eq a b t ha hb ho h]
+
+/-- The six comparison operators are determined by `cmpV`, so `a <= b` iff `not (a > b)` and `a < b or a == b`. -/
+theorem le_iff_lt_or_eq (a b : Val) (t : Ty) (ha : hasTy a t = true) (hb : hasTy b t = true) (ho : ordTy t = true) :
+    cmpV a b ≠ .gt ↔ (cmpV a b = .lt ∨ a = b) := by
+  constructor
+  · intro h
+    cases e : cmpV a b with
+    | lt => exact Or.inl rfl
+    | eq => exact Or.inr (cmpV_eq_imp_eq a b t ha hb ho e)
+    | gt => exact absurd e h
+  · rintro (h | h)
+    · simp [h]
+    · subst h; simp [cmpV_refl_of_eq]
+
 end Incan.Derive
